@@ -156,6 +156,16 @@ class Check(core.PropertyCheck):
             raise core.MachineryError("monitor clause C10.closed_while_hook_pending unreachable in the pre-fix model")
         ctx.notes["prefix_model_reaches"] = prefix.bad
         prefix.bad = []
+        if not ctx.quick:
+            # optional strengthening (not load-bearing, spec-level only): Apalache inductive invariant, unbounded time
+            import subprocess
+
+            try:
+                r = subprocess.run([str(core.SPEC / "Watchdog" / "apalache" / "run.sh")], capture_output=True, text=True,
+                                   timeout=2400)
+                ctx.notes["apalache_inductive_invariant"] = (r.stdout.strip().splitlines() or ["no output"])[-1]
+            except Exception as e:  # tool missing / timeout: the claim does not depend on it
+                ctx.notes["apalache_inductive_invariant"] = f"skipped: {e!r}"
         return [fixed, prefix]
 
     OPS = {"Tick": "tick", "Activity": "activity", "HookStart": "hook_start", "HookEnd": "hook_end"}
